@@ -1,21 +1,39 @@
-/* Sanity of the specification transcription AND of the C kernel on the official test vector
- * for the empty input: one block, block_len 0, counter 0, flags CHUNK_START|CHUNK_END|ROOT,
- * BLAKE3("") = af1349b9 f5f9a1a6 a0404dea 36dcc949 9bcb25c9 adc112b7 cc9a93ca e41f3262.
+/* Sanity of the specification transcription AND of the C kernel on two official test vectors
+ * (test_vectors/test_vectors.json, input byte i = i % 251), each a single compression with
+ * counter 0 and flags CHUNK_START|CHUNK_END|ROOT:
+ *   input_len  0: af1349b9 f5f9a1a6 a0404dea 36dcc949 9bcb25c9 adc112b7 cc9a93ca e41f3262
+ *   input_len 64: 4eed7141 ea4a5cd4 b788606b d23f46e2 12af9cac ebacdc7d 1f4c6dc7 f2511b98
+ * (the second one has 16 distinct non-zero message words, so the message schedule matters).
  * Everything is concrete: cbmc evaluates it by constant propagation. */
 #include "../compress_spec.h"
 void harness(void) {
   VERIF_PROLOGUE();
-  static const uint8_t digest[32] = {
+  static const uint8_t digest0[32] = {
       0xaf, 0x13, 0x49, 0xb9, 0xf5, 0xf9, 0xa1, 0xa6, 0xa0, 0x40, 0x4d, 0xea, 0x36, 0xdc, 0xc9, 0x49,
       0x9b, 0xcb, 0x25, 0xc9, 0xad, 0xc1, 0x12, 0xb7, 0xcc, 0x9a, 0x93, 0xca, 0xe4, 0x1f, 0x32, 0x62};
+  static const uint8_t digest64[32] = {
+      0x4e, 0xed, 0x71, 0x41, 0xea, 0x4a, 0x5c, 0xd4, 0xb7, 0x88, 0x60, 0x6b, 0xd2, 0x3f, 0x46, 0xe2,
+      0x12, 0xaf, 0x9c, 0xac, 0xeb, 0xac, 0xdc, 0x7d, 0x1f, 0x4c, 0x6d, 0xc7, 0xf2, 0x51, 0x1b, 0x98};
+  uint8_t fl = CHUNK_START | CHUNK_END | ROOT;
   uint32_t mw[16] = {0}, spec_out[16];
   uint8_t block[64] = {0}, out[64];
-  uint8_t fl = CHUNK_START | CHUNK_END | ROOT;
   spec_compress(SPEC_IV, mw, 0, 0, fl, spec_out);
   blake3_compress_xof_portable(IV, block, 0, 0, fl, out);
   for (int i = 0; i < 8; i++) {
-    __CPROVER_assert(spec_out[i] == spec_le32(digest + 4 * i), "paper spec reproduces BLAKE3(\"\")");
-    __CPROVER_assert(spec_le32(out + 4 * i) == spec_le32(digest + 4 * i), "C kernel reproduces BLAKE3(\"\")");
+    __CPROVER_assert(spec_out[i] == spec_le32(digest0 + 4 * i), "paper spec reproduces BLAKE3 of the empty input");
+    __CPROVER_assert(spec_le32(out + 4 * i) == spec_le32(digest0 + 4 * i), "C kernel reproduces BLAKE3 of the empty input");
+  }
+  uint32_t cv[8];
+  for (int i = 0; i < 8; i++) cv[i] = IV[i];
+  for (int i = 0; i < 64; i++) block[i] = (uint8_t)i;
+  for (int i = 0; i < 16; i++) mw[i] = spec_le32(block + 4 * i);
+  spec_compress(SPEC_IV, mw, 0, 64, fl, spec_out);
+  blake3_compress_xof_portable(IV, block, 64, 0, fl, out);
+  blake3_compress_in_place_portable(cv, block, 64, 0, fl);
+  for (int i = 0; i < 8; i++) {
+    __CPROVER_assert(spec_out[i] == spec_le32(digest64 + 4 * i), "paper spec reproduces the 64-byte vector");
+    __CPROVER_assert(spec_le32(out + 4 * i) == spec_le32(digest64 + 4 * i), "C compress_xof reproduces the 64-byte vector");
+    __CPROVER_assert(cv[i] == spec_le32(digest64 + 4 * i), "C compress_in_place reproduces the 64-byte vector");
   }
   VERIF_REACHABLE();
 }
